@@ -11,6 +11,7 @@ oracle  : every contact mjw.collision reports on random scenes of plane/sphere/c
 from __future__ import annotations
 
 import json
+import time
 from collections import defaultdict
 
 import numpy as np
@@ -19,7 +20,7 @@ import propkit
 import vlib
 
 MANIFEST = {
-  "text": "proof: over R, about the Gallina definitions regenerated from math.py / collision_primitive_core.py on every run: make_frame of a non-zero vector is a right-handed orthonormal frame whose first row is a/|a| (zero vector: zero matrix); sphere_sphere, plane_sphere, sphere_capsule, plane_capsule return a unit normal from geom 1 to geom 2, dist = signed separation of the two surface points along it, pos = their midpoint (coincident centres: fixed normal (1,0,0)); closest_segment_point equals the exact closest point only up to its +1e-6 regulariser: exact parameter relation and the bound |pt-pt*| <= 1e-6/(|ab|^2+1e-6) |pt*-a| (and a _refuted witness that it is not the closest point); plane_capsule's frame is a right-handed orthonormal frame with first row the plane normal for every capsule axis (unconditional since the repair of C20:plane_capsule:frame-fallback-not-orthogonal; the tilted-plane upright-capsule scene is kept as a regression case). tested only: float32 rounding, the wrappers/kernels, capsule-capsule, cylinder, box, ellipsoid pairs and GJK/EPA (oracle against closed forms, surface points and MuJoCo)",
+  "text": "proof: over R, about the Gallina definitions regenerated from math.py / collision_primitive_core.py on every run: make_frame of a non-zero vector is a right-handed orthonormal frame whose first row is a/|a| (zero vector: zero matrix); sphere_sphere, plane_sphere, sphere_capsule, plane_capsule return a unit normal from geom 1 to geom 2, dist = signed separation of the two surface points along it, pos = their midpoint (coincident centres: fixed normal (1,0,0)); closest_segment_point equals the exact closest point only up to its +1e-6 regulariser: exact parameter relation and the bound |pt-pt*| <= 1e-6/(|ab|^2+1e-6) |pt*-a| (and a _refuted witness that it is not the closest point); plane_capsule's frame is a right-handed orthonormal frame with first row the plane normal for every capsule axis (unconditional since the repair of C20:plane_capsule:frame-fallback-not-orthogonal; the tilted-plane upright-capsule scene is kept as a regression case). tested only: float32 rounding, the wrappers/kernels, capsule-capsule, cylinder, box, ellipsoid pairs and GJK/EPA (oracle: random scenes and structured pose families - exactly parallel/perpendicular/collinear, edge/face/corner placements, unequal sizes, both geom orders - with every contact checked for frame, witness points on both geoms, witness separation and midpoint, float64 closed forms, and the per-pair contact multiset against mujoco.mj_collision)",
   "note": "trusted: Coq kernel; translator bin/translate.py (validated each run against the compiled Warp functions on random and degenerate inputs); Base/Vec.v copy of wp.normalize / wp.clamp; real-number axioms of Coq's Reals; the oracle's float64 numpy formulas and MuJoCo's narrowphase",
   "technique": "Rocq proof over functions machine-translated from the source (T), translation validation, implementation-level geometric oracle and differential oracle against MuJoCo",
   "engine": "coq",
@@ -68,13 +69,25 @@ def _half(rng, n):
   return h.astype(np.float32)
 
 
+def _exact_rot(rng, n):
+  """rotation matrices with entries 0, +-1 (axis permutations): exactly aligned poses"""
+  out = np.zeros((n, 3, 3))
+  for i in range(n):
+    P = np.eye(3)[rng.permutation(3)] * rng.choice([-1.0, 1.0], 3)[:, None]
+    if np.linalg.det(P) < 0:
+      P[0] = -P[0]
+    out[i] = P
+  return out
+
+
 def _rot(rng, n):
   q = rng.standard_normal((n, 4))
   q /= np.linalg.norm(q, axis=1, keepdims=True)
   w, x, y, z = q.T
   R = np.stack([1 - 2 * (y * y + z * z), 2 * (x * y - w * z), 2 * (x * z + w * y), 2 * (x * y + w * z), 1 - 2 * (x * x + z * z), 2 * (y * z - w * x),
                 2 * (x * z - w * y), 2 * (y * z + w * x), 1 - 2 * (x * x + y * y)], axis=1).reshape(n, 3, 3)  # fmt: skip
-  R[rng.random(n) < 0.15] = np.eye(3)
+  sel = rng.random(n) < 0.3
+  R[sel] = _exact_rot(rng, n)[sel]
   return R.astype(np.float32)
 
 
@@ -97,6 +110,10 @@ def g_sphere_capsule(rng, n):
   s = rng.random(n)
   m = s < 0.15  # sphere centre on the capsule axis (inside the segment or beyond an end)
   sp[m] = (cp + ax * rng.uniform(-1.5, 1.5, (n, 1)).astype(np.float32) * np.maximum(hl, 0.1)[:, None])[m]
+  m2 = (s >= 0.15) & (s < 0.35)  # beside the shaft / obliquely off an end, at distances around the radii
+  side = np.cross(ax, _unit(rng, n, 0.0))
+  side /= np.maximum(np.linalg.norm(side, axis=1, keepdims=True), 1e-6)
+  sp[m2] = (cp + ax * (rng.choice([0.0, 0.5, 1.0, -1.0, 1.2], n).astype(np.float32) * hl)[:, None] + side * rng.uniform(0.05, 0.8, (n, 1)).astype(np.float32))[m2]
   return [sp, _rad(rng, n), cp, ax, _rad(rng, n), hl]
 
 
@@ -110,6 +127,10 @@ def g_plane_capsule(rng, n):
   t = nrm + 0.3 * _unit(rng, n, 0.0)
   t /= np.linalg.norm(t, axis=1, keepdims=True)
   ax[m2] = t[m2].astype(np.float32)
+  m3 = (s >= 0.35) & (s < 0.5)  # capsule exactly parallel to the plane (axis perpendicular to an axis-aligned normal)
+  nn = _unit(rng, n, 1.0)
+  nrm[m3] = nn[m3]
+  ax[m3] = np.roll(nn, 1, axis=1)[m3]
   return [nrm, _pos(rng, n), _pos(rng, n), ax, _rad(rng, n), _half(rng, n)]
 
 
@@ -125,7 +146,34 @@ def g_sphere_cylinder(rng, n):
   sp[m] = (cp + ax * rng.uniform(-1.5, 1.5, (n, 1)).astype(np.float32) * np.maximum(hh, 0.1)[:, None])[m]
   m2 = (s >= 0.15) & (s < 0.4)  # near the cylinder: inside/side/cap/corner regions
   sp[m2] = (cp + _pos(rng, n, 0.4))[m2]
+  m3 = (s >= 0.4) & (s < 0.6)  # at the rim, above a cap off the axis, beside the wall
+  side = np.cross(ax, _unit(rng, n, 0.0))
+  side /= np.maximum(np.linalg.norm(side, axis=1, keepdims=True), 1e-6)
+  ka = rng.choice([0.0, 0.5, 1.0, -1.0, 1.3, -1.3], n).astype(np.float32)
+  kr = rng.choice([0.5, 1.0, 1.3], n).astype(np.float32)
+  sp[m3] = (cp + ax * (ka * hh)[:, None] + side * (kr * rc)[:, None])[m3]
   return [sp, _rad(rng, n), cp, ax, rc, hh]
+
+
+def _tri(rng, n):
+  """non-degenerate triangles near the origin (a few axis-aligned ones)"""
+  c = _pos(rng, n, 0.3)
+  t = [c + _pos(rng, n, 0.5) for _ in range(3)]
+  sel = rng.random(n) < 0.2
+  for k, v in enumerate(((0.5, 0, 0), (0, 0.5, 0), (-0.25, -0.25, 0))):
+    t[k][sel] = (c + np.float32(v))[sel]
+  return t
+
+
+def g_axis_triangle(rng, n):
+  """capsule_triangle / cylinder_triangle: unit axis, positive radius and half-length, triangle at contact range"""
+  t = _tri(rng, n)
+  return [_pos(rng, n, 0.4), _unit(rng, n), rng.uniform(0.02, 0.3, n).astype(np.float32), rng.uniform(0.02, 0.5, n).astype(np.float32), t[0], t[1], t[2], rng.uniform(0.0, 0.05, n).astype(np.float32)]
+
+
+def g_sphere_triangle(rng, n):
+  t = _tri(rng, n)
+  return [_pos(rng, n, 0.5), rng.uniform(0.02, 0.3, n).astype(np.float32), t[0], t[1], t[2], rng.uniform(0.0, 0.05, n).astype(np.float32)]
 
 
 def g_rotmore(rng, n):
@@ -166,7 +214,7 @@ def g_segment(rng, n):
 GEN = {
   "plane_sphere": g_plane_sphere, "sphere_sphere": g_sphere_sphere, "sphere_capsule": g_sphere_capsule,
   "plane_capsule": g_plane_capsule, "plane_ellipsoid": g_plane_ellipsoid, "sphere_cylinder": g_sphere_cylinder,
-  "_compute_rotmore": g_rotmore, "make_frame": g_vec3_frame, "orthogonals": g_unitish,
+  "_compute_rotmore": g_rotmore, "capsule_triangle": g_axis_triangle, "cylinder_triangle": g_axis_triangle, "sphere_triangle": g_sphere_triangle, "make_frame": g_vec3_frame, "orthogonals": g_unitish,
   "closest_segment_point": g_segment, "closest_segment_point_and_dist": g_segment, "orthonormal": g_unitish,
 }  # fmt: skip
 
@@ -276,6 +324,21 @@ def sdf(t, size, x):
   raise ValueError(t)
 
 
+def seg_closest(R, p, hl, x):
+  """closest point of the capsule axis segment (world frame) to the world point x."""
+  a = R[:, 2]
+  return p + a * float(np.clip((x - p) @ a, -hl, hl))
+
+
+def witness_err(t, size, R, p, q, nout):
+  """distance of the claimed witness q (outward normal nout) from the geom's surface; capsule: distance of the
+  centre q - nout r of the contact sphere from the axis segment."""
+  if t == CAPSULE:
+    c = q - nout * size[0]
+    return float(np.linalg.norm(c - seg_closest(R, p, size[1], c)))
+  return abs(sdf(t, size, R.T @ (q - p)))
+
+
 def hsup(t, size, R, p, n):
   """support value max_{x in geom} x.n in the world frame."""
   l = R.T @ n
@@ -353,7 +416,7 @@ def check_contacts(r, margin, stats):
 
     def fail(check, key, detail, k):
       fails.append({
-        "check": check, "key": key, "pair": pname, "detail": detail, "xml": r["xml"], "qpos": r["qpos"][w].tolist(), "world": 0,
+        "check": check, "key": key, "pair": pname, "detail": detail, "xml": r["xml"], "qpos": r["qpos"][w].tolist(), "world": 0, "w": w,
         "geoms": [g1, g2], "margin": margin, "reported": {"dist": float(r["dist"][k]), "pos": r["pos"][k].tolist(), "frame": r["frame"][k].reshape(-1).tolist()},
       })  # fmt: skip
 
@@ -372,25 +435,41 @@ def check_contacts(r, margin, stats):
       if t1 == PLANE:
         if np.abs(n - R1[:, 2]).max() > 1e-5:
           fail("normal", f"C20:normal:{pname}", "normal is not the plane normal", k)
-      elif dist > 1e-4 and (p2 - p1) @ n <= 0:
+      elif k == kmin and dist > 1e-4 and (p2 - p1) @ n <= 0:  # (further contacts of a pair need not separate the whole geoms)
         fail("normal", f"C20:normal:{pname}", f"separated contact whose normal points from geom2 to geom1: (c2-c1).n = {(p2 - p1) @ n:.3e}", k)
-      # (c) surface points: pos -/+ n dist/2 lie on geom1 / geom2
+      # (c) witness points of EVERY contact: q1 = pos - n dist/2 on geom1, q2 = pos + n dist/2 on geom2 (so pos is
+      # midway and dist is their separation along n).  Capsule contacts are sphere contacts at a point of the
+      # capsule axis (MuJoCo's convention): there the centre q -/+ n r of that sphere must lie on the axis segment.
       if t1 == PLANE or pair in ANALYTIC:
         q1, q2 = pos - n * dist / 2, pos + n * dist / 2
-        e1 = sdf(t1, s1, R1.T @ (q1 - p1))
-        e2 = sdf(t2, s2, R2.T @ (q2 - p2))
+        e1 = witness_err(t1, s1, R1, p1, q1, n)
+        e2 = witness_err(t2, s2, R2, p2, q2, -n)
         tol = 3e-5 * scale
-        strict = k == kmin or (t1 == PLANE and t2 != CAPSULE)
-        # capsule contacts are sphere contacts at a point of the capsule axis (MuJoCo's convention): for the
-        # second contact of a pair, and in penetration, the sphere's surface point may lie inside the capsule
-        in1 = (t1 == CAPSULE and (not strict or dist <= 0)) or (t1 == BOX and not strict)
-        in2 = (t2 == CAPSULE and (not strict or dist <= 0)) or (t2 == BOX and not strict)
-        b1 = e1 > tol if in1 else abs(e1) > tol
-        b2 = e2 > tol if in2 else abs(e2) > tol
-        if strict and not (in1 or in2):
-          st["surface"] = max(st["surface"], abs(e1), abs(e2))
-        if b1 or b2:
-          fail("surface", f"C20:surface-point:{pname}", f"pos -/+ n dist/2 is off the surfaces by {e1:.3e} (geom1), {e2:.3e} (geom2)", k)
+        if pair == ("box", "box") and k != kmin:
+          e1, e2 = max(sdf(t1, s1, R1.T @ (q1 - p1)), 0.0), max(sdf(t2, s2, R2.T @ (q2 - p2)), 0.0)  # clipped-polygon points
+        st["surface"] = max(st["surface"], e1, e2)
+        if e1 > tol or e2 > tol:
+          fail("surface", f"C20:surface-point:{pname}", f"witness points pos -/+ n dist/2 are off the two geoms by {e1:.3e} (geom1), {e2:.3e} (geom2): pos is not midway between the surfaces along n", k)
+          continue
+        # dist is a real separation: one witness is the closest point of its geom to the other witness
+        if pair == ("capsule", "capsule"):
+          c1, c2 = q1 - n * s1[0], q2 + n * s2[0]
+          sepw = float(np.linalg.norm(c2 - c1))
+          d12 = float(np.linalg.norm(c1 - seg_closest(R2, p2, s2[1], c1)))
+          d21 = float(np.linalg.norm(c2 - seg_closest(R1, p1, s1[1], c2)))
+          e = min(abs(sepw - d12), abs(sepw - d21))
+          st["sep"] = max(st["sep"], e)
+          if e > tol:
+            fail("witness-separation", f"C20:witness-separation:{pname}", f"the witnesses on the two axes are {sepw:.6f} apart but the closest points of the other axis are {d12:.6f} / {d21:.6f} away: dist is not a separation of the geoms", k)
+        elif pair in (("capsule", "box"), ("sphere", "box")):
+          c1 = q1 - n * s1[0] if pair[0] == "capsule" else p1
+          lc = R2.T @ (c1 - p2)
+          if np.any(np.abs(lc) > s2 + 1e-5):  # centre outside the box: the box witness is the closest box point
+            cb = p2 + R2 @ np.clip(lc, -s2, s2)
+            e = float(np.linalg.norm(cb - q2))
+            st["sep"] = max(st["sep"], e)
+            if e > tol:
+              fail("witness-separation", f"C20:witness-separation:{pname}", f"the box witness is {e:.3e} away from the box point closest to the contact sphere's centre", k)
     # (d) closed forms (theorem pairs)
     if cf is not None:
       used = set()
@@ -447,7 +526,7 @@ def check_contacts(r, margin, stats):
 
 def oracle_random(res, nscenes, nworld):
   rng = np.random.default_rng(vlib.seed() + 20)
-  fails, stats = [], {}
+  fails, stats, mstats = [], {}, {}
   for sc in range(nscenes):
     margin = (0.1, 0.0, 0.05)[sc % 3]
     xml = scene_xml(rng, margin)
@@ -460,13 +539,369 @@ def oracle_random(res, nscenes, nworld):
     r = collide(xml, qpos)
     f = check_contacts(r, margin, stats)
     fails += f
+    fails += multiset_vs_mujoco(r, [f"random(margin {margin})"] * nworld, mstats)
     res.count(r["n"])
     for k in range(r["n"]):
       g = r["geom"][k]
       res.nontrivial(("contact", sc, int(r["world"][k]), int(g[0]), int(g[1])))
     if sc == 0 and r["n"]:
       res.sample({"kind": "oracle contact", "xml": xml[:300], "geoms": r["geom"][0].tolist(), "dist": float(r["dist"][0]), "pos": r["pos"][0].tolist(), "frame": r["frame"][0].reshape(-1).tolist()})
+  res.extra["random_multiset_vs_mujoco"] = mstats
   res.extra["oracle_max_errors_by_pair"] = {k: {a: (b if a == "contacts" else float(f"{b:.3e}")) for a, b in v.items()} for k, v in sorted(stats.items())}
+  return fails
+
+
+# ---------------------------------------------------------------- structured pose families
+# Exact rotations: the unit Hurwitz quaternions give rotation matrices with entries 0, +-1 (also in float32), so
+# "exactly parallel / perpendicular / aligned" poses are exact for both engines and tie-breaks agree.
+EXQ = [(1, 0, 0, 0), (0, 1, 0, 0), (0, 0, 1, 0), (0, 0, 0, 1)] + [
+  (0.5, a, b, c) for a in (0.5, -0.5) for b in (0.5, -0.5) for c in (0.5, -0.5)
+]
+MJ_PRIMITIVE = {
+  ("plane", "sphere"), ("plane", "capsule"), ("plane", "ellipsoid"), ("plane", "cylinder"), ("plane", "box"),
+  ("sphere", "sphere"), ("sphere", "capsule"), ("sphere", "cylinder"), ("sphere", "box"), ("capsule", "capsule"), ("capsule", "box"),
+}  # fmt: skip   pairs whose MJWarp code is a port of MuJoCo's closed-form function: contact multisets must agree
+SMARGIN = 0.03125
+# body -> (type, size); dyadic sizes, two of each type with different proportions; order 1 swaps the two
+SGEOMS = [
+  ("sphere", (0.25,)), ("sphere", (0.125,)), ("capsule", (0.125, 0.5)), ("capsule", (0.1875, 0.0625)),
+  ("ellipsoid", (0.25, 0.125, 0.1875)), ("ellipsoid", (0.125, 0.25, 0.0625)), ("cylinder", (0.125, 0.25)), ("cylinder", (0.25, 0.0625)),
+  ("box", (0.25, 0.125, 0.0625)), ("box", (0.125, 0.375, 0.1875)),
+]  # fmt: skip
+
+
+def struct_geoms(order):
+  g = list(SGEOMS)
+  if order:
+    for i in range(0, 10, 2):
+      g[i], g[i + 1] = g[i + 1], g[i]
+  return g
+
+
+def struct_xml(order):
+  s = [f'<mujoco><option><flag multiccd="disable"/></option><default><geom margin="{SMARGIN}"/></default><worldbody>',
+       '<geom name="plane" type="plane" size="5 5 .1"/>']  # fmt: skip
+  for k, (t, sz) in enumerate(struct_geoms(order)):
+    mg = ' margin="0"' if t == "box" else ""
+    s.append(f'<body name="b{k}"><freejoint/><geom name="g{k}" type="{t}" size="{" ".join(map(str, sz))}"{mg}/></body>')
+  s.append("</worldbody></mujoco>")
+  return "\n".join(s)
+
+
+def qmul(a, b):
+  w1, x1, y1, z1 = a
+  w2, x2, y2, z2 = b
+  return np.array([w1 * w2 - x1 * x2 - y1 * y2 - z1 * z2, w1 * x2 + x1 * w2 + y1 * z2 - z1 * y2,
+                   w1 * y2 - x1 * z2 + y1 * w2 + z1 * x2, w1 * z2 + x1 * y2 - y1 * x2 + z1 * w2])  # fmt: skip
+
+
+def qrot(q, v):
+  w, x, y, z = q
+  R = np.array([[1 - 2 * (y * y + z * z), 2 * (x * y - w * z), 2 * (x * z + w * y)], [2 * (x * y + w * z), 1 - 2 * (x * x + z * z), 2 * (y * z - w * x)],
+                [2 * (x * z - w * y), 2 * (y * z + w * x), 1 - 2 * (x * x + y * y)]])  # fmt: skip
+  return R @ np.asarray(v, dtype=np.float64)
+
+
+def qaxis(axis, ang):
+  a = np.asarray(axis, dtype=np.float64)
+  a = a / np.linalg.norm(a)
+  return np.concatenate([[np.cos(ang / 2)], np.sin(ang / 2) * a])
+
+
+Z2X, Z2Y = (0.5, 0.5, 0.5, 0.5), (0.5, -0.5, -0.5, -0.5)  # exact: local z axis -> world x  /  world y... (cyclic permutations)
+ID = (1.0, 0.0, 0.0, 0.0)
+
+
+def struct_cases(order, rng):
+  """(family, bodyA, poseA, bodyB or None, poseB) in a canonical frame; poses are (pos, quat).  bodyB None: plane pair."""
+  G = struct_geoms(order)
+  out = []
+  pen = [-0.0625, -0.015625, 0.015625]  # surface gap: penetrating, slightly penetrating, inside the margin band
+
+  def add(fam, a, pa, b, pb):
+    out.append((fam, a, (np.asarray(pa[0], float), np.asarray(pa[1], float)), b, None if pb is None else (np.asarray(pb[0], float), np.asarray(pb[1], float))))
+
+  def tilt(q, k):
+    return qmul(q, qaxis(rng.standard_normal(3), 0.03 * (k + 1)))
+
+  # ---- sphere-sphere: axes, diagonal, coincident, unequal radii
+  ra, rb = G[0][1][0], G[1][1][0]
+  for g in pen:
+    for dirv in ((1, 0, 0), (0, 1, 0), (0, 0, -1), (1, 1, 0), (1, -2, 2)):
+      u = np.asarray(dirv, float) / np.linalg.norm(dirv)
+      add("sphere-sphere", 0, ((0, 0, 0), ID), 1, (u * (ra + rb + g), ID))
+  add("sphere-sphere:coincident", 0, ((0, 0, 0), ID), 1, ((0, 0, 0), ID))
+  # ---- sphere-capsule: beside the shaft, collinear beyond an end, at an end obliquely, short and long capsule
+  for sb in (0, 1):
+    rs = G[sb][1][0]
+    for cb in (2, 3):
+      rc, hl = G[cb][1]
+      for g in pen:
+        for qc in (ID, Z2X, Z2Y):
+          ax = qrot(qc, (0, 0, 1))
+          side = qrot(qc, (1, 0, 0))
+          add("sphere-capsule:side", sb, (side * (rs + rc + g) + ax * 0.25 * hl, ID), cb, ((0, 0, 0), qc))
+          add("sphere-capsule:collinear", sb, (ax * (hl + rs + rc + g), ID), cb, ((0, 0, 0), qc))
+          add("sphere-capsule:end-oblique", sb, (ax * hl + (ax + side) / np.sqrt(2) * (rs + rc + g), ID), cb, ((0, 0, 0), qc))
+  # ---- sphere-cylinder: side, cap (on the axis and off it), rim corner, inside
+  for sb in (0, 1):
+    rs = G[sb][1][0]
+    for cb in (6, 7):
+      rc, hh = G[cb][1]
+      for g in pen:
+        for qc in (ID, Z2X):
+          ax, side = qrot(qc, (0, 0, 1)), qrot(qc, (0, 1, 0))
+          add("sphere-cylinder:side", sb, (side * (rs + rc + g) + ax * 0.5 * hh, ID), cb, ((0, 0, 0), qc))
+          add("sphere-cylinder:cap-axis", sb, (ax * (hh + rs + g), ID), cb, ((0, 0, 0), qc))
+          add("sphere-cylinder:cap-off-axis", sb, (-ax * (hh + rs + g) + side * 0.5 * rc, ID), cb, ((0, 0, 0), qc))
+          add("sphere-cylinder:rim", sb, (ax * hh + side * rc + (ax + side) / np.sqrt(2) * (rs + g), ID), cb, ((0, 0, 0), qc))
+      add("sphere-cylinder:inside", sb, ((0.03125, 0, 0.015625), ID), cb, ((0, 0, 0), ID))
+  # ---- sphere-box: face, edge-nearest, corner-nearest, inside; boxes with three distinct half-sizes
+  for sb in (0, 1):
+    rs = G[sb][1][0]
+    for bb in (8, 9):
+      hx = np.array(G[bb][1])
+      for g in pen:
+        for qb in (ID, Z2X):
+          for sg in ((1, 0, 0), (0, -1, 0), (0, 0, 1), (1, 1, 0), (0, 1, -1), (-1, 0, 1), (1, 1, 1), (-1, 1, -1)):
+            sg = np.array(sg, float)
+            u = sg / np.linalg.norm(sg)
+            off = np.where(sg == 0, 0.25 * hx, 0.0)  # not centred on the face / edge
+            add("sphere-box:" + ("face", "edge", "corner")[int(np.abs(sg).sum()) - 1], sb, (qrot(qb, sg * hx + off + u * (rs + g)), ID), bb, ((0, 0, 0), qb))
+      add("sphere-box:inside", sb, (np.array([0.5, 0.25, 0.125]) * hx, ID), bb, ((0, 0, 0), ID))
+  # ---- capsule-capsule: exactly parallel (different lengths, both orders come from `order`), collinear,
+  #      perpendicular crossing / T, skew
+  (r1, l1), (r2, l2) = G[2][1], G[3][1]
+  for qc in (ID, Z2X, Z2Y, (0, 1, 0, 0)):
+    ax, s1v, s2v = qrot(qc, (0, 0, 1)), qrot(qc, (1, 0, 0)), qrot(qc, (0, 1, 0))
+    for lat in (0.5625, 0.75, 0.9375, 1.0625):  # x (r1+r2): overlapping side by side ... inside the margin band
+      for axial in (0.0, 0.25, -0.5, 0.75, 1.0, -1.25):  # x |l1-l2|: inside the span, flush with an end, sticking out
+        for phi in (0.0, 0.7):
+          latv = (np.cos(phi) * s1v + np.sin(phi) * s2v) * lat * (r1 + r2)
+          add("capsule-capsule:parallel", 2, ((0, 0, 0), qc), 3, (latv + ax * axial * abs(l1 - l2), qc))
+    for g in pen:
+      add("capsule-capsule:collinear", 2, ((0, 0, 0), qc), 3, (ax * (l1 + l2 + r1 + r2 + g), qc))
+      qp = qmul(qc, Z2X)  # second capsule perpendicular (its axis along the first one's local x)
+      add("capsule-capsule:cross", 2, ((0, 0, 0), qc), 3, (s2v * (r1 + r2 + g) + ax * 0.25 * l1, qp))
+      add("capsule-capsule:T", 2, ((0, 0, 0), qc), 3, (s1v * (r1 + r2 + l2 + g) - ax * 0.5 * l1, qp))
+      add("capsule-capsule:T-end", 2, ((0, 0, 0), qc), 3, (s1v * (r1 + r2 + l2 + g) + ax * l1, qp))
+      for k in range(2):
+        add("capsule-capsule:skew", 2, ((0, 0, 0), qc), 3, (s2v * (r1 + r2 + g) + ax * 0.125, tilt(qp, 5 * k + 3)))
+  # ---- capsule-box: along each of the 12 edges (exact and tilted a few percent), overshooting near a corner,
+  #      flat on a face, tip on a face, pointing at a corner
+  ZTO = {0: Z2X, 1: Z2Y, 2: ID}  # capsule local z -> box axis e
+  for cb in (2, 3):
+    rc, hl = G[cb][1]
+    for bb in (8, 9):
+      hx = np.array(G[bb][1])
+      for e in range(3):
+        o1, o2 = (e + 1) % 3, (e + 2) % 3
+        for s1s in (1, -1):
+          for s2s in (1, -1):
+            c = np.zeros(3)
+            c[o1], c[o2] = s1s * hx[o1], s2s * hx[o2]  # the edge's midpoint
+            out_dir = np.zeros(3)
+            out_dir[o1], out_dir[o2] = s1s, s2s
+            out_dir /= np.sqrt(2)
+            for shift in (0.0, 0.75, 1.5, -2.5):  # along the edge, in units of the box half-size: 1.5 / -2.5 overshoot the corner
+              for g in pen[:2] + [0.0078125]:
+                base = c + out_dir * (rc + g)
+                base[e] = shift * hx[e]
+                add("capsule-box:edge-exact", cb, (base, ZTO[e]), bb, ((0, 0, 0), ID))
+                add("capsule-box:edge-tilted", cb, (base, tilt(ZTO[e], int(abs(shift) * 2))), bb, ((0, 0, 0), ID))
+        # flat on the face normal to o1, axis along e (exact, diagonal in the face, slightly tilted)
+        for g in pen[:2]:
+          base = np.zeros(3)
+          base[o1] = hx[o1] + rc + g
+          base[e], base[o2] = 0.25 * hx[e], 0.5 * hx[o2]
+          add("capsule-box:face-flat", cb, (base, ZTO[e]), bb, ((0, 0, 0), ID))
+          add("capsule-box:face-flat-tilted", cb, (base, tilt(ZTO[e], 1)), bb, ((0, 0, 0), ID))
+          axd = np.zeros(3)
+          axd[o1] = 1.0
+          add("capsule-box:face-diagonal-tilted", cb, (base, qmul(qaxis(axd, 0.6), tilt(ZTO[e], 1))), bb, ((0, 0, 0), ID))
+          tip = np.zeros(3)
+          tip[e] = hx[e] + hl + rc + g
+          tip[o1], tip[o2] = 0.25 * hx[o1], -0.5 * hx[o2]
+          add("capsule-box:tip-on-face", cb, (tip, ZTO[e]), bb, ((0, 0, 0), ID))
+      for sg in ((1, 1, 1), (-1, 1, -1), (1, -1, -1)):
+        sg = np.array(sg, float)
+        u = sg / np.sqrt(3)
+        # capsule pointing at the corner: its local z along u
+        zq = qaxis(np.cross((0, 0, 1), u), np.arccos(u[2]))
+        for g in pen[:2]:
+          add("capsule-box:corner-pointing", cb, (sg * hx + u * (hl + rc + g), zq), bb, ((0, 0, 0), ID))
+          add("capsule-box:corner-across", cb, (sg * hx + u * (rc + g), qmul(zq, Z2X)), bb, ((0, 0, 0), ID))
+  # ---- box-box (GJK/EPA + multicontact in MJWarp): face-face aligned, edge-edge crossed, corner-face
+  ha, hb = np.array(G[8][1]), np.array(G[9][1])
+  for g in pen[:2]:
+    for e in range(3):
+      v = np.zeros(3)
+      v[e] = ha[e] + hb[e] + g
+      v[(e + 1) % 3] = 0.25 * ha[(e + 1) % 3]
+      add("box-box:face-face", 8, ((0, 0, 0), ID), 9, (v, ID))
+      add("box-box:face-face-rot", 8, ((0, 0, 0), ID), 9, (v + np.eye(3)[e] * 0.05, qaxis(np.eye(3)[e], 0.5)))
+    add("box-box:corner-face", 8, ((0, 0, 0), ID), 9, ((0, 0, ha[2] + 0.3 + g), qmul(qaxis((1, 0, 0), 0.6), qaxis((0, 1, 0), 0.5))))
+  # ---- plane pairs (plane z = 0, normal +z): every type, exact and tilted placements
+  for sb in (0, 1):
+    for g in pen:
+      add("plane-sphere", sb, ((0.125, -0.25, G[sb][1][0] + g), ID), None, None)
+  for cb in (2, 3):
+    rc, hl = G[cb][1]
+    for g in pen:
+      add("plane-capsule:parallel", cb, ((0, 0, rc + g), Z2X), None, None)
+      add("plane-capsule:parallel-y", cb, ((0.25, 0, rc + g), Z2Y), None, None)
+      add("plane-capsule:upright", cb, ((0, 0, rc + hl + g), ID), None, None)
+      add("plane-capsule:upside-down", cb, ((0, 0, rc + hl + g), (0, 1, 0, 0)), None, None)
+      for ang in (0.3, 0.7854, 1.2):
+        add("plane-capsule:tilted", cb, ((0, 0, rc + hl * np.cos(ang) + g), qaxis((1, 0, 0), ang)), None, None)
+  for cb in (6, 7):
+    rc, hh = G[cb][1]
+    for g in pen:
+      add("plane-cylinder:flat", cb, ((0, 0.125, hh + g), ID), None, None)
+      add("plane-cylinder:flat-flipped", cb, ((0, 0.125, hh + g), (0, 1, 0, 0)), None, None)
+      add("plane-cylinder:rolling", cb, ((0, 0, rc + g), Z2X), None, None)
+      add("plane-cylinder:rolling-y", cb, ((0, 0, rc + g), Z2Y), None, None)
+      for ang in (0.05, 0.5, 0.7854, 1.3):
+        add("plane-cylinder:rim", cb, ((0, 0, hh * np.cos(ang) + rc * np.sin(ang) + g), qaxis((1, 2, 0), ang)), None, None)
+  for bb in (8, 9):
+    hx = np.array(G[bb][1])
+    for g in pen:
+      for q, e in ((ID, 2), (Z2X, 0), (Z2Y, 1)):  # resting on each kind of face (local axis e vertical)
+        pass
+      add("plane-box:flat-z", bb, ((0, 0, hx[2] + g), ID), None, None)
+      add("plane-box:flat-x", bb, ((0, 0, hx[0] + g), (0.5, -0.5, -0.5, -0.5)), None, None)
+      add("plane-box:flat-y", bb, ((0, 0, hx[1] + g), (0.5, 0.5, 0.5, 0.5)), None, None)
+      a = np.arctan2(hx[1], hx[2])
+      add("plane-box:edge-down", bb, ((0, 0, np.hypot(hx[1], hx[2]) + g), qaxis((1, 0, 0), np.pi / 2 - a)), None, None)
+      add("plane-box:edge-tilted", bb, ((0, 0, np.hypot(hx[1], hx[2]) + g), qmul(qaxis((0, 1, 0), 0.05), qaxis((1, 0, 0), np.pi / 2 - a))), None, None)
+      u = hx / np.linalg.norm(hx)
+      add("plane-box:corner-down", bb, ((0, 0, np.linalg.norm(hx) + g), qaxis(np.cross(u, (0, 0, -1)), np.arccos(-u[2]))), None, None)
+  for eb in (4, 5):
+    hx = np.array(G[eb][1])
+    for g in pen:
+      add("plane-ellipsoid:z", eb, ((0, 0, hx[2] + g), ID), None, None)
+      add("plane-ellipsoid:x", eb, ((0, 0, hx[0] + g), (0.5, -0.5, -0.5, -0.5)), None, None)
+      q = qaxis((1, 1, 0), 0.6)
+      add("plane-ellipsoid:tilted", eb, ((0, 0, float(np.linalg.norm(qrot((q[0], -q[1], -q[2], -q[3]), (0, 0, 1)) * hx)) + g), q), None, None)
+  return out
+
+
+def struct_worlds(cases):
+  """qpos rows: the pair at its poses (non-plane pairs lifted to z = 3 and moved by an exact rigid motion), the
+  other bodies parked far away from everything."""
+  rows = []
+  for i, (fam, a, pa, b, pb) in enumerate(cases):
+    q = np.zeros(70)
+    for k in range(10):
+      q[7 * k : 7 * k + 3] = (100.0 + 10.0 * k, 0.0, 50.0)
+      q[7 * k + 3] = 1.0
+    if b is None:
+      T, Q = np.array([0.25 * (i % 3), -0.5 * (i % 2), 0.0]), (ID, (0, 0, 0, 1))[i % 2]  # rigid motions that keep the plane
+    else:
+      T, Q = np.array([0.5 * (i % 3) - 0.5, 0.25 * (i % 5), 3.0 + 0.125 * (i % 4)]), EXQ[i % len(EXQ)]
+    for body, pose in ((a, pa), (b, pb)):
+      if body is None:
+        continue
+      q[7 * body : 7 * body + 3] = T + qrot(Q, pose[0])
+      q[7 * body + 3 : 7 * body + 7] = qmul(Q, pose[1])
+    rows.append(q)
+  return np.array(rows)
+
+
+def multiset_vs_mujoco(r, labels, stats):
+  """Per world and geom pair (pairs whose MJWarp code ports MuJoCo's closed-form function): the contacts as a
+  multiset (dist, pos, normal) against mujoco.mj_collision.  labels[w] names the pose family of world w."""
+  import mujoco
+
+  m, d = r["m"], r["d"]
+  fails = []
+  byw = defaultdict(list)
+  for k in range(r["n"]):
+    byw[int(r["world"][k])].append(k)
+  for w, fam in enumerate(labels):
+    ks = byw.get(w, [])
+    d.qpos[:] = r["qpos"][w]
+    mujoco.mj_kinematics(m, d)
+    mujoco.mj_collision(m, d)
+    refall = [(int(c.geom1), int(c.geom2), float(c.dist), np.array(c.pos), np.array(c.frame[:3])) for c in d.contact[: d.ncon]]
+    mineall = [(int(r["geom"][k][0]), int(r["geom"][k][1]), float(r["dist"][k]), r["pos"][k], r["frame"][k][0]) for k in ks]
+    st = stats.setdefault(fam, {"worlds": 0, "contacts": 0, "pairs_compared": 0, "near_tie": 0})
+    st["worlds"] += 1
+    st["contacts"] += len(mineall)
+    for g1, g2 in sorted({(x[0], x[1]) for x in refall + mineall}):
+      pair = (TN.get(int(m.geom_type[g1])), TN.get(int(m.geom_type[g2])))
+      if pair not in MJ_PRIMITIVE:
+        continue
+      ref = [x for x in refall if x[:2] == (g1, g2)]
+      mine = [x for x in mineall if x[:2] == (g1, g2)]
+      mg = float(m.geom_margin[g1] + m.geom_margin[g2])  # geom margins add up
+      if any(abs(x[2] - mg) < 3e-4 for x in ref + mine):
+        continue  # a contact sits on the margin boundary: float32 / float64 may legitimately disagree on its presence
+      st["pairs_compared"] += 1
+      left = list(ref)
+      bad = None
+      for x in mine:
+        j = next((j for j, y in enumerate(left) if abs(x[2] - y[2]) < 3e-4 and np.abs(x[3] - y[3]).max() < 3e-4 and np.abs(x[4] - y[4]).max() < 3e-3), None)
+        if j is None:
+          bad = f"contact dist {x[2]:.6f} pos {np.round(x[3], 5).tolist()} n {np.round(x[4], 4).tolist()} has no counterpart among MuJoCo's {[(round(y[2], 6), np.round(y[3], 5).tolist(), np.round(y[4], 4).tolist()) for y in ref]}"
+          break
+        left.pop(j)
+      if bad is None and left:
+        y = left[0]
+        bad = f"MuJoCo's contact dist {y[2]:.6f} pos {np.round(y[3], 5).tolist()} n {np.round(y[4], 4).tolist()} is missing ({len(mine)} contacts vs MuJoCo's {len(ref)})"
+      if bad and not _mj_stable(m, d, r["qpos"][w], refall):
+        st["near_tie"] += 1  # MuJoCo's own answer changes under a 1e-5 perturbation of the input: discarded
+        bad = None
+      if bad:
+        pname = f"{pair[0]}-{pair[1]}"
+        fails.append({"check": "mujoco-multiset", "key": f"C20:mujoco-multiset:{pname}", "pair": pname, "detail": f"[{fam}] {bad}", "xml": r["xml"],
+                      "qpos": r["qpos"][w].tolist(), "world": 0, "geoms": [g1, g2], "margin": mg, "family": fam,
+                      "reported": {"dist": [x[2] for x in mine], "pos": [np.asarray(x[3]).tolist() for x in mine]}})  # fmt: skip
+  return fails
+
+
+def _mj_stable(m, d, qpos, ref, trials=6, eps=1e-5):
+  """Is MuJoCo's contact multiset for this world insensitive to input perturbations of float32-arithmetic size?"""
+  import mujoco
+
+  rng = np.random.default_rng(12345)
+  for _ in range(trials):
+    q = np.asarray(qpos, dtype=np.float64) + rng.uniform(-eps, eps, len(qpos)) * (np.abs(qpos) < 10)
+    d.qpos[:] = q
+    mujoco.mj_kinematics(m, d)
+    mujoco.mj_collision(m, d)
+    cur = [(int(c.geom1), int(c.geom2), float(c.dist), np.array(c.pos), np.array(c.frame[:3])) for c in d.contact[: d.ncon]]
+    if len(cur) != len(ref):
+      return False
+    left = list(cur)
+    for x in ref:
+      j = next((j for j, y in enumerate(left) if x[:2] == y[:2] and abs(x[2] - y[2]) < 2e-4 and np.abs(x[3] - y[3]).max() < 2e-4 and np.abs(x[4] - y[4]).max() < 2e-3), None)
+      if j is None:
+        return False
+      left.pop(j)
+  return True
+
+
+def oracle_structured(res, thorough=False):
+  rng = np.random.default_rng(vlib.seed() + 2020)
+  fails, stats, fstats = [], {}, {}
+  for order in (0, 1):
+    cases = struct_cases(order, rng)
+    if thorough:  # the same families again with fresh tilt perturbations
+      cases = cases + struct_cases(order, rng)
+    xml = struct_xml(order)
+    r = collide(xml, struct_worlds(cases), naconmax=len(cases) * 12)
+    f = check_contacts(r, SMARGIN, stats)
+    for x in f:
+      x["family"] = cases[x["w"]][0]
+      x["detail"] = f"[{x['family']}] " + x["detail"]
+    fails += f
+    fails += multiset_vs_mujoco(r, [c[0] for c in cases], fstats)
+    res.count(len(cases))
+    for w, c in enumerate(cases):
+      res.nontrivial(("structured", order, c[0], w))
+  res.extra["structured_families"] = fstats
+  res.extra["structured_max_errors_by_pair"] = {k: {a: (b if a == "contacts" else float(f"{b:.3e}")) for a, b in v.items()} for k, v in sorted(stats.items())}
   return fails
 
 
@@ -566,19 +1001,22 @@ def directed(res):
 # ---------------------------------------------------------------- run / replay
 def run(res):
   quick = res.tier == "quick"
-  res.rule = "T-validation cases: inputs per translated function drawn from unit normals/axes (25% axis-aligned), radii incl. 0, half-lengths incl. 0 and 1 mm, coincident and near-coincident centres, capsule along the plane normal, points on axes; distinct = agreeing non-discarded cases. oracle: every contact reported on random 11-geom scenes (distinct = (scene, world, geom pair)) + 5 directed degenerate scenes"
+  res.rule = "T-validation cases: inputs per translated function drawn from unit normals/axes (25% axis-aligned), radii incl. 0, half-lengths incl. 0 and 1 mm, coincident and near-coincident centres, capsule along the plane normal, points on axes; distinct = agreeing non-discarded cases. oracle: every contact reported on random 11-geom scenes (distinct = (scene, world, geom pair)); structured pose families for every primitive pair (exactly parallel / perpendicular / collinear axes via exact Hurwitz-quaternion rotations and dyadic sizes, edge- and face-aligned, corner-nearest, tilted by a few percent, unequal sizes in both geom orders), every contact checked (frame, witness points on both geoms, witness separation, midpoint) and the per-pair contact multiset compared with mujoco.mj_collision (worlds where MuJoCo's own answer is unstable under 1e-5 input noise or a contact sits on the margin boundary are discarded); 5 directed degenerate scenes"
   ok, trs, failing = propkit.prove(res, PROPS, gen_names=["math", "primitive_core"], required_funcs=REQ)
   tp = trs.get("primitive_core")
   if tp is not None:
     res.extra["primitive_core_translated"] = getattr(tp, "translated", [])
     res.extra["primitive_core_untranslated"] = {k.rsplit(".", 1)[1]: v for k, v in tp.errors.items()}
-  vlib.log(f"[C20] proofs built ({'ok' if ok else 'BROKEN'}), T-validation ...")
+  vlib.log(f"[C20 {time.time() - res.t0:.0f}s] proofs built ({'ok' if ok else 'BROKEN'}), T-validation ...")
   tbad = tvalidate(res, trs, 60 if quick else 600)
-  vlib.log(f"[C20] T-validation done ({len(tbad)} disagreements), oracle ...")
+  vlib.log(f"[C20 {time.time() - res.t0:.0f}s] T-validation done ({len(tbad)} disagreements), oracle ...")
   res.obligation("T-validation: translated primitives and math.py helpers agree with compiled Warp", not tbad, f"{len(tbad)} disagreements")
 
   fails = oracle_random(res, 3 if quick else 30, 40 if quick else 80)
-  vlib.log(f"[C20] random scenes done ({len(fails)} failing contacts), directed scenes ...")
+  vlib.log(f"[C20 {time.time() - res.t0:.0f}s] random scenes done ({len(fails)} failing contacts), structured pose families ...")
+  sfails = oracle_structured(res, thorough=not quick)
+  fails += sfails
+  vlib.log(f"[C20 {time.time() - res.t0:.0f}s] structured families done ({len(sfails)} failures), directed scenes ...")
   bykey = defaultdict(list)
   for f in fails:
     bykey[f["key"]].append(f)
@@ -588,7 +1026,7 @@ def run(res):
   dfind = directed(res)
   for key, what, data in dfind:
     res.violation(key, what, data)
-  vlib.log("[C20] oracle done")
+  vlib.log(f"[C20 {time.time() - res.t0:.0f}s] oracle done")
 
   # a failing input explains a broken proof / correspondence only if it is not an already recorded finding
   known = {(k.get("property"), k.get("key")) for k in vlib.load_known().get("findings", [])}
